@@ -368,8 +368,15 @@ def toyFloat : FloatOps where
   isNaN64 _ := false
   ofInt64 x := x
 
+instance : DecidableEq toyFloat.F32 := inferInstanceAs (DecidableEq Int)
+instance : DecidableEq toyFloat.F64 := inferInstanceAs (DecidableEq Int)
+
 /-- an integer vector as a vector of the toy instance. -/
 def toyVec (l : List Int) : List toyFloat.F32 := l
+/-- an optional vector of the toy instance as optional integers (for decidable comparisons). -/
+def toyOptVec (o : Option (List toyFloat.F32)) : Option (List Int) := o
+/-- a search result of the toy instance with integer distances. -/
+def toyRes (r : List (Nat × toyFloat.F64)) : List (Nat × Int) := r
 /-- a result of the toy instance as an integer. -/
 def toyVal (x : toyFloat.F64) : Int := x
 
